@@ -426,6 +426,7 @@ pub fn execute(prop: &str, sc: &RrScript, opts: &ExecOpts) -> Outcome {
                         out.violate(prop, "scenario-timeout", "reqrep-e2e", "calls did not all return within 900 virtual seconds: a request() hangs".into());
                     }
                 }
+                Some(Err(e)) if sc.outage_at_ms.is_none() => setup_failed(&mut out, prop, "reqrep-e2e", &sc.net, e),
                 Some(Err(e)) => {
                     out.inconclusive = true;
                     out.log.push(format!("setup error: {e:#}"));
